@@ -70,15 +70,45 @@ pub fn decode_evm_diff(data: &[u8]) -> Option<c17::Case> {
     })
 }
 
+/// nested EVM calls recurse natively (SimVM's call-depth limit is 1024): run every case on a thread with a 1 GiB stack,
+/// as the `verif` binary does
+fn on_big_stack<F: FnOnce() + Send + 'static>(f: F) {
+    use std::sync::{Mutex, OnceLock, mpsc};
+    type Job = Box<dyn FnOnce() + Send>;
+    // one long-lived worker (mapping a fresh 1 GiB stack per execution costs ~3 ms)
+    static TX: OnceLock<Mutex<mpsc::Sender<(Job, mpsc::Sender<bool>)>>> = OnceLock::new();
+    let tx = TX.get_or_init(|| {
+        let (tx, rx) = mpsc::channel::<(Job, mpsc::Sender<bool>)>();
+        std::thread::Builder::new()
+            .stack_size(1 << 30)
+            .spawn(move || {
+                for (job, done) in rx {
+                    let ok = std::panic::catch_unwind(std::panic::AssertUnwindSafe(job)).is_ok();
+                    let _ = done.send(ok);
+                }
+            })
+            .expect("spawn worker");
+        Mutex::new(tx)
+    });
+    let (dtx, drx) = mpsc::channel();
+    tx.lock().unwrap().send((Box::new(f), dtx)).expect("worker alive");
+    if !drx.recv().unwrap_or(false) {
+        // a panic of the harness itself (not of an actor: those are caught inside SimVM) is a crash for libFuzzer
+        std::process::abort();
+    }
+}
+
 pub fn evm_diff(data: &[u8]) {
     let case = match decode_evm_diff(data) {
         Some(c) => c,
         None => return,
     };
-    let mut stats = CaseStats::default();
-    if let Err(v) = c17::C17.run(&case, &mut stats) {
-        report("C17", &case, &v);
-    }
+    on_big_stack(move || {
+        let mut stats = CaseStats::default();
+        if let Err(v) = c17::C17.run(&case, &mut stats) {
+            report("C17", &case, &v);
+        }
+    });
 }
 
 /// decode fuzz bytes into a C18 arbitrary-bytes case: flags, call data, raw code
@@ -102,8 +132,10 @@ pub fn evm_total(data: &[u8]) {
         Some(c) => c,
         None => return,
     };
-    let mut stats = CaseStats::default();
-    if let Err(v) = c18::C18.run(&case, &mut stats) {
-        report("C18", &case, &v);
-    }
+    on_big_stack(move || {
+        let mut stats = CaseStats::default();
+        if let Err(v) = c18::C18.run(&case, &mut stats) {
+            report("C18", &case, &v);
+        }
+    });
 }
